@@ -128,6 +128,8 @@ class Index:
         elif k in FUNC_KINDS:
             if 'previousDecl' not in n and 'id' in n:
                 self.decl_q[n['id']] = ctx
+                self.decl_static = getattr(self, 'decl_static', {})
+                self.decl_static[n['id']] = (n.get('storageClass') == 'static')
 
     def _ctx_of(self, o, top_prefix):
         # top-level dumped decl: qualified name is not in the JSON for nested records/functions; the caller gives
@@ -171,6 +173,8 @@ class Index:
             # in-class declaration it redeclares
             if n.get('previousDecl') in self.decl_q:
                 ctx = self.decl_q[n['previousDecl']]
+                if getattr(self, 'decl_static', {}).get(n['previousDecl']):
+                    n['storageClass'] = 'static'    # static member function defined out of line
             q = ctx + '::' + name if ctx else name
             self.funcs.append(dict(qname=q, name=name, node=n, mangled=n.get('mangledName'),
                                    type=n['type']['qualType'], targs=targs, ctx=ctx, kind=k))
@@ -304,6 +308,21 @@ ITER_RE = re.compile(r'^(?:__gnu_cxx::)?__normal_iterator<')
 def iterlike(t):
     """pointer type string P when t is __gnu_cxx::__normal_iterator<P, C> (vector / string iterators = raw pointers)"""
     t = norm_class(t)
+    if t.endswith('::_Self'):
+        t = t[:-len('::_Self')]
+    md = re.match(r'^std::_Deque_iterator<', t)
+    if md:
+        # std::_Deque_iterator<T, Ref, Ptr>: a deque iterator is modelled as a raw pointer Ptr into contiguous storage
+        i = md.end(); d = 0; j = i; parts = []; cur = ''
+        for ch in t[i:-1]:
+            if ch == '<': d += 1
+            elif ch == '>': d -= 1
+            if ch == ',' and d == 0:
+                parts.append(cur.strip()); cur = ''
+            else:
+                cur += ch
+        parts.append(cur.strip())
+        return parts[2] if len(parts) >= 3 else parts[0] + ' *'
     m = ITER_RE.match(t)
     if not m:
         return None
@@ -873,17 +892,49 @@ class FnLower:
         r.append('}')
         return r
 
+    def cond_stmts(self, n, var):
+        """statements that evaluate condition n into the _Bool variable var, with short-circuit evaluation and an
+        exception check after every may-throw call (used where the condition cannot be a plain C expression)"""
+        u = n
+        while u.get('kind') in TRANSPARENT:
+            u = u['inner'][0]
+        if u.get('kind') == 'BinaryOperator' and u.get('opcode') in ('&&', '||'):
+            a, b = u['inner']
+            r = self.cond_stmts(a, var)
+            inner = self.cond_stmts(b, var)
+            r.append('if (%s%s) {' % ('' if u['opcode'] == '&&' else '!', var))
+            r += ['  ' + l for l in inner]
+            r.append('}')
+            return r
+        thr = self.has_throwing_call(u)
+        e = self.expr(u)
+        r = self.flush_pre()
+        r.append('%s = %s;' % (var, e))
+        if thr:
+            r.append(self.chk())
+        return r
+
     def s_WhileStmt(self, n):
         inner = n['inner']
         if len(inner) != 2:
             self.brk(n, 'while with condition variable')
         cond, body = inner
-        if self.has_throwing_call(cond):
-            self.brk(n, 'may-throw call in loop condition')
-        ce = self.expr(cond)
-        if self.pre: self.brk(n, 'hoisted temporary in loop condition')
+        if not self.has_throwing_call(cond):
+            save = self.pre; self.pre = []
+            ce = self.expr(cond)
+            hoisted = self.pre; self.pre = save
+            if not hoisted:
+                mark = self.loop_marker()
+                r = ['while (%s)' % ce, mark, '{']
+                r += ['  ' + l for l in self.block(body)]
+                r.append('}')
+                return r
+        # general form: the condition is evaluated by statements at the head of the loop body
         mark = self.loop_marker()
-        r = ['while (%s)' % ce, mark, '{']
+        cv = self.tmp('verif_w')
+        r = ['while (1)', mark, '{', '  _Bool %s = 0;' % cv]
+        r += ['  ' + l for l in self.cond_stmts(cond, cv)]
+        r.append('  if (!%s) break;' % cv)
         r += ['  ' + l for l in self.block(body)]
         r.append('}')
         return r
@@ -1026,7 +1077,7 @@ class FnLower:
             if ptrlike(cls) is not None or iterlike(cls) is not None:
                 return None
             nargs = len(n['inner']) - 1
-            return self.resolve_member(cls, me['name'], nargs, n)
+            return self.resolve_member(cls, me['name'], nargs, n, argsig=self.argsig(n['inner'][1:]))
         if k == 'CXXOperatorCallExpr':
             cal = unwrap_casts(n['inner'][0])
             rd = cal.get('referencedDecl', {})
@@ -1038,7 +1089,7 @@ class FnLower:
                 return None
             if rd.get('kind') == 'CXXMethodDecl':
                 cls = self.T.cls(args[0]['type'])
-                return self.resolve_member(cls, name, len(args) - 1, n, sig=rd.get('type', {}).get('qualType'))
+                return self.resolve_member(cls, name, len(args) - 1, n, sig=rd.get('type', {}).get('qualType'), argsig=self.argsig(args[1:]))
             return self.resolve_free(name, rd.get('type', {}).get('qualType'), len(args), n, argnodes=args)
         if k == 'CallExpr':
             cal = unwrap_casts(n['inner'][0])
@@ -1068,8 +1119,23 @@ class FnLower:
             return None
         return None
 
-    def resolve_member(self, cls, name, nargs, n, sig=None):
+    def argsig(self, argnodes):
+        """C types of the explicit arguments, used to tell overloads apart: e.g. 'char*,unsigned long'"""
+        out = []
+        for a in argnodes:
+            if a.get('kind') == 'CXXDefaultArgExpr':
+                out.append('default')
+                continue
+            try:
+                t = self.T.c(a['type'])
+            except ExtractionBreak:
+                t = '?'
+            out.append(t)
+        return ','.join(out)
+
+    def resolve_member(self, cls, name, nargs, n, sig=None, argsig=None):
         keys = []
+        if argsig is not None: keys.append((cls, name, nargs, 'args:' + argsig))
         if sig: keys.append((cls, name, nargs, sig))
         keys += [(cls, name, nargs), (cls, name)]
         for key in keys:
@@ -1251,6 +1317,8 @@ class FnLower:
         name = n['name']
         if self.T.qt(n['type']) == '<bound member function type>':
             self.brk(n, 'bound member function used as a value')
+        if name in self.cfg.consts:
+            return self.cfg.consts[name]     # static data member reached through an object (s.npos)
         o = self.expr(obj)
         cls = self.T.cls(obj['type'])
         key = (cls, name, 'field')
